@@ -415,6 +415,55 @@ class CallGraph:
                             for cname in m2.classes:
                                 res.extend(self._class_init((m2.name, cname)))
                             return sorted(set(res))
+        # a function taken out of a module-level table: `f = TABLE[k]`,
+        # `f = TABLE.get(k)`, `entry = TABLE.get(k); f, flag = entry`: every
+        # function named in the table's display is a possible callee
+        def table_of(expr, depth=0):
+            if depth > 3:
+                return None
+            if isinstance(expr, ast.Subscript):
+                return table_of(expr.value, depth + 1) if not isinstance(expr.value, ast.Name) else (
+                    expr.value.id if self._module_table(mod, expr.value.id) is not None
+                    else from_local(expr.value.id, depth + 1))
+            if isinstance(expr, ast.Call) and isinstance(expr.func, ast.Attribute) and expr.func.attr == 'get' \
+                    and isinstance(expr.func.value, ast.Name):
+                return expr.func.value.id if self._module_table(mod, expr.func.value.id) is not None else None
+            if isinstance(expr, ast.Name):
+                return from_local(expr.id, depth + 1)
+            return None
+
+        def from_local(nm, depth):
+            if depth > 3:
+                return None
+            for node in walk_no_nested(fn):
+                if isinstance(node, ast.Assign) and any(
+                        isinstance(t, ast.Name) and t.id == nm for tg in node.targets for t in ast.walk(tg)):
+                    got = table_of(node.value, depth)
+                    if got is not None:
+                        return got
+            return None
+        tbl = from_local(name, 0)
+        if tbl is not None:
+            res = []
+            for fname in self._module_table(mod, tbl):
+                tgt = self._resolve_name(mod, fname, None)
+                if tgt is not None and tgt[0] == 'func':
+                    res.append(tgt[1])
+                elif tgt is not None and tgt[0] == 'class':
+                    res.extend(self._class_init(tgt[1]))
+            if res:
+                return sorted(set(res))
+        return None
+
+    def _module_table(self, mod, name):
+        """Names that occur in the display bound to the module-level ``name``
+        (a dict, tuple or list literal), or None."""
+        for st in mod.tree.body:
+            tgt = st.targets[0] if isinstance(st, ast.Assign) and len(st.targets) == 1 else (
+                st.target if isinstance(st, ast.AnnAssign) else None)
+            if isinstance(tgt, ast.Name) and tgt.id == name and isinstance(
+                    getattr(st, 'value', None), (ast.Dict, ast.Tuple, ast.List)):
+                return sorted({n.id for n in ast.walk(st.value) if isinstance(n, ast.Name)})
         return None
 
     # ------------------------------------------------------------ queries
